@@ -43,18 +43,21 @@ def _cut_chunk(args):
     seed, cuts = args
     out = []
     for c in cuts:
-        out.append(_one_cut(random.Random(seed), c))
+        if isinstance(c, tuple):         # (byte offset, padding of the victim's record, records the victim completed before)
+            out.append(_one_cut(random.Random(seed), c[0], pad=c[1], pre=c[2]))
+        else:
+            out.append(_one_cut(random.Random(seed), c))
     return out
 
 
-def _one_cut(rng, c):
+def _one_cut(rng, c, pad=5, pre=0):
     from . import jfile_shim as sh
 
     common.use_repo()
     world = sh.World()
     restore = sh.install(world)
     try:
-        victim = world.add_worker(1, [("append", [sh.record(101, 5)])])
+        victim = world.add_worker(1, [("append", [sh.record(110 + i, 3)]) for i in range(pre)] + [("append", [sh.record(101, pad)])])
         victim.chunker = lambda n, c=c: [c] if (not isinstance(c, str) and 0 < c < n) else []
         surv = world.add_worker(2, [("append", [sh.record(201, 0)]), ("read",), ("append", [sh.record(202, 7)]), ("read",)])
         late = world.add_worker(99, [("read",), ("read",)])
@@ -67,13 +70,13 @@ def _one_cut(rng, c):
         while not victim.finished and guard < 200:
             guard += 1
             k = victim.pending[0] if victim.pending else None
-            in_append = any(e["e"] == "astart" and e["w"] == 1 for e in world.events)
+            in_append = sum(1 for e in world.events if e["e"] == "astart" and e["w"] == 1) == pre + 1
             if isinstance(c, str):
                 if in_append and k == c:
                     world.kill(victim)
                     crashed = True
                     break
-            elif k == "write":
+            elif k == "write" and in_append:
                 if writes == (1 if c > 0 else 0):
                     world.kill(victim)
                     crashed = True
@@ -93,7 +96,7 @@ def _one_cut(rng, c):
             world.grant(late)
         world.shutdown()
         return {"tid": 0, "workers": sorted(world.workers), "ev": list(world.events), "lock": "symlink",
-                "replay": {"family": "cut", "cut": c}}
+                "replay": {"family": "cut", "cut": c, "pad": pad, "pre": pre}}
     finally:
         restore()
 
@@ -180,6 +183,6 @@ def rerun(data):
         ts = _random_chunk((r["seed"], r["index"] + 1, r["crash"], tuple(r["shape"])))
         return [ts[r["index"]]]
     if r["family"] == "cut":
-        return [_one_cut(random.Random(0), r["cut"])]
+        return [_one_cut(random.Random(0), r["cut"], pad=r.get("pad", 5), pre=r.get("pre", 0))]
     behs = tlc.simulate("JournalFileMC", "JournalFileMC_" + r["cfg"], num=r["num"], depth=r["depth"], seed=data["seed"] + 11)
     return [rp.replay(behs[r["index"]], CONSTS[r["cfg"]], lock_kind=["symlink", "open"][r["index"] % 2])]
